@@ -32,8 +32,12 @@ impl Definition {
         self.usages.is_empty()
     }
 
+    /// The usages, in the order in which they occur in the source
     pub fn usages(&self) -> Vec<&DefinitionLocation> {
-        self.usages.iter().collect_vec()
+        self.usages
+            .iter()
+            .sorted_by_key(|usage| (usage.span, usage.parent_scope))
+            .collect_vec()
     }
 
     pub fn definition_and_usages(&self) -> Vec<&DefinitionLocation> {
@@ -41,7 +45,7 @@ impl Definition {
         if let Some(l) = &self.location {
             result.push(l);
         }
-        result.extend(self.usages.iter().collect_vec());
+        result.extend(self.usages());
         result
     }
 
